@@ -288,7 +288,25 @@ func New(r *rand.Rand, cfg Config, st *Stats) (*Engine, error) {
 			e.directAdd()
 		}
 	}
-	sh, err := shimagent.New(shimagent.Option{Address: sock, NoUpstream: cfg.NoUpstream})
+	// the listing order is the caller's to choose: one rig in four brings its own comparison function
+	var comp func(a, b ssh.PublicKey) bool
+	switch r.Intn(12) {
+	case 0:
+		comp = func(a, b ssh.PublicKey) bool { return bytes.Compare(a.Marshal(), b.Marshal()) > 0 }
+	case 1:
+		comp = func(a, b ssh.PublicKey) bool {
+			if a.Type() != b.Type() {
+				return a.Type() < b.Type()
+			}
+			return bytes.Compare(a.Marshal(), b.Marshal()) < 0
+		}
+	case 2:
+		comp = func(a, b ssh.PublicKey) bool { return false } // no preference at all
+	}
+	if comp != nil && st != nil {
+		st.Ops["rig-with-own-key-comparison"]++
+	}
+	sh, err := shimagent.New(shimagent.Option{Address: sock, NoUpstream: cfg.NoUpstream, PubKeyComp: comp})
 	if err != nil {
 		e.Ag.Close()
 		return nil, err
